@@ -164,7 +164,11 @@ func (g *G) Request(tid string, now int64, kinds []t_api.Kind, tasks []KnownTask
 	case t_api.ReadSchedule:
 		r.ReadSchedule = &t_api.ReadScheduleRequest{Id: g.pick(SchedIds)}
 	case t_api.SearchSchedules:
-		r.SearchSchedules = &t_api.SearchSchedulesRequest{Id: g.pick([]string{"*", "s*", "S*"}), Tags: map[string]string{}, Limit: 1 + g.R.Intn(3)}
+		stags := map[string]string{}
+		if g.R.Intn(3) == 0 {
+			stags["kk"] = g.pick([]string{"v", "w"})
+		}
+		r.SearchSchedules = &t_api.SearchSchedulesRequest{Id: g.pick([]string{"*", "s*", "S*"}), Tags: stags, Limit: 1 + g.R.Intn(3)}
 	case t_api.CreateSchedule:
 		r.CreateSchedule = &t_api.CreateScheduleRequest{Id: g.pick(SchedIds), Description: g.pick([]string{"", "d"}), Cron: g.pick(CronExprs), Tags: g.apiTags(false),
 			PromiseId: g.pick(IdTemplates), PromiseTimeout: int64(g.pickInt([]int{0, 500, 3000, 100000})), PromiseParam: g.apiValue(), PromiseTags: g.apiTags(g.R.Intn(100) < routedPct), IdempotencyKey: g.key()}
